@@ -1644,3 +1644,12 @@ Proof.
     apply in_flat_map. exists h. split; [exact Hat|exact Hx]. }
   split; apply K; cbn; auto.
 Qed.
+
+(* C08: corollary of pending_exact - over any history, and for every set [g] of call instances,
+   no more results are taken than calls were started (no result taken twice, none taken of a
+   call that was never started), and what is pending never exceeds what was started *)
+Lemma collected_within_started hooks ops init s l (g : inst -> bool) :
+  run_ops hooks 0 ops (est0 init) = (s, l) ->
+  (nf g (collects (full_trace l)) <= nf g (starts (full_trace l)))%nat /\
+  (pn g s <= nf g (starts (full_trace l)))%nat.
+Proof. intro H. pose proof (pending_exact _ _ _ _ _ g H) as E. lia. Qed.
